@@ -262,7 +262,7 @@ class Ctx:
         # passed without evaluation (so the shrinker stops), cases that failed before are evaluated truthfully (so
         # Hypothesis' final replay of *its* best example reproduces and no Flaky error arises).  The last failing
         # execution is the final replay, i.e. Hypothesis' minimal example.
-        state = {"failed": False, "best": None, "seen": set(), "shrinks": 0, "t_fail": None}
+        state = {"failed": False, "best": None, "seen": {}, "shrinks": 0, "t_fail": None}
         shrink_seconds = self.cfg.get("shrink_s", 60 if self.tier == "quick" else 300)
 
         @hypothesis.seed(self.derived_seed(layer))
@@ -279,9 +279,15 @@ class Ctx:
         @given(strategy)
         def test(case):
             if state["failed"]:
+                h = case_hash(case)
+                if h in state["seen"]:
+                    # the same case reached through another choice sequence: the oracle is deterministic, do not pay
+                    # for it again (matters when one failing evaluation costs seconds)
+                    state["best"] = (case, state["seen"][h])
+                    raise Violation(state["seen"][h][0][0])
                 state["shrinks"] += 1
                 spent = state["shrinks"] > shrink_budget or time.time() - state["t_fail"] > shrink_seconds
-                if spent and case_hash(case) not in state["seen"]:
+                if spent:
                     return
             elif self.expired():
                 self.stats.skipped_deadline += 1
@@ -291,7 +297,7 @@ class Ctx:
                 if not state["failed"]:
                     state["t_fail"] = time.time()
                 state.update(failed=True, best=(case, failures))
-                state["seen"].add(case_hash(case))
+                state["seen"][case_hash(case)] = failures
                 raise Violation(failures[0][0])
 
         try:
